@@ -166,3 +166,39 @@ func Words(input []byte, extra []byte) uint64 {
 }
 
 func wordsOf(b []byte) uint64 { return uint64(len(b)) / 192 }
+
+var bigTen = big.NewInt(10)
+var minD = big.NewInt(5)
+
+type Hdr struct {
+	Time *big.Int
+	Diff *big.Int
+}
+
+var Main = &Hdr{Time: big.NewInt(7), Diff: big.NewInt(5)}
+
+// InPlace: big.Int variables updated in place, merged by a φ-node, a package-level struct pointer
+func InPlace(t uint64, h *Hdr, id uint64) *big.Int {
+	x := new(big.Int)
+	y := new(big.Int)
+	x.Sub(new(big.Int).SetUint64(t), h.Time)
+	x.Div(x, bigTen)
+	x.Sub(bigTen, x)
+	if x.Sign() < 0 {
+		x.Set(h.Diff)
+	}
+	y.Div(h.Diff, bigTen)
+	x.Mul(y, x)
+	x.Add(h.Diff, x)
+	if id == Main.Time.Uint64() {
+		x = BigMaxP(x, minD)
+	}
+	return x
+}
+
+func BigMaxP(a, b *big.Int) *big.Int {
+	if a.Cmp(b) < 0 {
+		return b
+	}
+	return a
+}
